@@ -343,9 +343,15 @@ def gen_consts(repo):
     wd = fn_body(base, "with_defaults") or base
     consts["DEFAULT_MEMORY"] = locate(notes, "DEFAULT_MEMORY", wd, [
         (r"generate_encoding_parameters\(\s*transfer_length\s*,\s*max_packet_size\s*,\s*", r"\s*,?\s*\)", ident)])
-    try:
-        f = flat_ints(find_array(dg, "f", kind="let|const|static"))
-    except TranslateError:
+    # the degree table: whatever array is declared inside deg() (its name and its let/const spelling are free)
+    f = None
+    for m in re.finditer(r"\b(?:let|const|static)\s+(?:mut\s+)?(\w+)\s*:\s*\[", dg):
+        try:
+            f = flat_ints(find_array(dg, m.group(1), kind="let|const|static"))
+            break
+        except TranslateError:
+            continue
+    if f is None:
         f = flat_ints(find_array(base, "f", kind="let|const|static"))
     if len(f) != 31:
         raise TranslateError(f"deg table f has {len(f)} entries")
